@@ -44,6 +44,8 @@ def pairs():
     yield "str content", "a\x00b", "a b"
     yield "slice", slice(1, 2), slice(1, 2, 1)
     yield "masked mask", np.ma.MaskedArray([1, 2], [True, False]), np.ma.MaskedArray([1, 2], [False, False])
+    yield "masked fill_value", np.ma.MaskedArray([1., 2.], [True, False], fill_value=-1.0), np.ma.MaskedArray([1., 2.], [True, False])
+    yield "masked hard mask", np.ma.MaskedArray([1, 2], [True, False], hard_mask=True), np.ma.MaskedArray([1, 2], [True, False])
     yield "sparse format", sp.csr_matrix(np.eye(2)), sp.csc_matrix(np.eye(2))
     yield "sparse matrix vs array", sp.csr_matrix(np.eye(2)), sp.csr_array(np.eye(2))
     yield "sparse content", sp.csr_matrix(np.eye(2)), sp.csr_matrix(2 * np.eye(2))
